@@ -4,13 +4,18 @@ usage: python3 lib/seedkeep.py C19"""
 import json, os, shutil, subprocess, sys, glob, re
 VERIF = os.path.dirname(os.path.dirname(os.path.abspath(__file__)))
 pid = sys.argv[1]
-src = f'/tmp/seed_{pid}_out'
+tag = sys.argv[2] if len(sys.argv) > 2 else 'seed'
+src = f'/tmp/{tag}_{pid}_out'
+existing = [int(os.path.basename(d).split('-')[1]) for d in glob.glob(os.path.join(VERIF, 'seeded', f'{pid}-*'))]
+offset = max(existing) if (existing and tag != 'seed') else 0
 kept = []
 for d in sorted(glob.glob(src + '/*')):
     i = os.path.basename(d)
     if not os.path.exists(os.path.join(d, 'patch.diff')) or not os.path.exists(os.path.join(d, 'demo.py')):
         continue
-    dst = os.path.join(VERIF, 'seeded', f'{pid}-{i}')
+    if not i.isdigit():
+        continue
+    dst = os.path.join(VERIF, 'seeded', f'{pid}-{int(i) + offset}')
     os.makedirs(dst, exist_ok=True)
     for f in ('patch.diff', 'demo.py', 'notes.md'):
         if os.path.exists(os.path.join(d, f)):
